@@ -724,6 +724,29 @@ Lemma repaired_k1_variants :
   known_C07 wk1b = [] /\ run_C07 wk1b = [171] /\ spec_C07 wk1b (run_C07 wk1b) = true /\
   known_C07 wk1c = [] /\ run_C07 wk1c = [171] /\ spec_C07 wk1c (run_C07 wk1c) = true.
 Proof. vm_compute. repeat split; reflexivity. Qed.
+(* class 5: keys 1 and 2 administrators; "key 2 revoked" (by key 1) and "key 5 administrator" (by key 2) carry the
+   same date; listed first, the entry of the revoked key is judged while the key is still enabled *)
+Definition w_base2 : roomnode :=
+  RM_ 1 1000 1000 1 [E_ 1 32 100 1000 1; E_ 1 32 110 1000 1] [w_admin; U_ 110 1000 1 2 true] [E_ 1 33 10 1000 1] [w_g10 [] []].
+Definition wk5 : c07case :=
+  CPrep (Some w_base2)
+        (RM_ 1 1000 1000 1 [E_ 1 32 921 5000 2; E_ 1 32 100 1000 1; E_ 1 32 110 1000 1; E_ 1 32 920 5000 1]
+             [U_ 921 5000 2 5 true; w_admin; U_ 110 1000 1 2 true; U_ 920 5000 1 2 false]
+             [E_ 1 33 10 1000 1] [w_g10 [] []]) wp.
+Definition wk5' : c07case :=
+  CPrep (Some w_base2)
+        (RM_ 1 1000 1000 1 [E_ 1 32 920 5000 1; E_ 1 32 100 1000 1; E_ 1 32 110 1000 1; E_ 1 32 921 5000 2]
+             [U_ 920 5000 1 2 false; w_admin; U_ 110 1000 1 2 true; U_ 921 5000 2 5 true]
+             [E_ 1 33 10 1000 1] [w_g10 [] []]) wp.
+(* the same pair with the entry dated after the revocation is refused in either order *)
+Definition wk5l : c07case :=
+  CPrep (Some w_base2)
+        (RM_ 1 1000 1000 1 [E_ 1 32 921 6000 2; E_ 1 32 100 1000 1; E_ 1 32 110 1000 1; E_ 1 32 920 5000 1]
+             [U_ 921 6000 2 5 true; w_admin; U_ 110 1000 1 2 true; U_ 920 5000 1 2 false]
+             [E_ 1 33 10 1000 1] [w_g10 [] []]) wp.
+Lemma refuted_k5 : accepted_and_fails wk5 5 /\ run_C07 wk5' = [151] /\ run_C07 wk5l = [151] /\ known_C07 wk5l = [].
+Proof. vm_compute. repeat split; reflexivity. Qed.
+
 Lemma nonvacuous_k0 :
   known_C07 wk0 = [] /\ hd 0 (run_C07 wk0) = 1 /\ spec_C07 wk0 (run_C07 wk0) = true /\
   known_C07 wk0' = [] /\ hd 0 (run_C07 wk0') = 1 /\ spec_C07 wk0' (run_C07 wk0') = true.
